@@ -199,68 +199,126 @@ def sorting(ctx) -> None:
                           f"`{stmt_key(n.ast)[:70]}` returns something that did not pass the grouping and row-sorting loops (shortcut path)", where=f.where(n.ast))
 
 
+class _Unknown(Exception):
+    pass
+
+
+def _eval(e: ast.AST, env: dict):
+    """Evaluate an expression of the closed vocabulary of the decision function over the finite scenario domain."""
+    if isinstance(e, ast.Constant):
+        return e.value
+    if isinstance(e, ast.Name):
+        if e.id in env:
+            return env[e.id]
+        raise _Unknown(e.id)
+    if isinstance(e, ast.Attribute) and isinstance(e.value, ast.Name) and e.attr == "is_trough" and f"{e.value.id}.is_trough" in env:
+        return env[f"{e.value.id}.is_trough"]
+    if isinstance(e, (ast.Set, ast.Tuple, ast.List)):
+        return [_eval(x, env) for x in e.elts]
+    if isinstance(e, ast.UnaryOp) and isinstance(e.op, ast.Not):
+        return not _eval(e.operand, env)
+    if isinstance(e, ast.BoolOp):
+        if isinstance(e.op, ast.And):
+            for v in e.values:
+                if not _eval(v, env):
+                    return False
+            return True
+        for v in e.values:
+            if _eval(v, env):
+                return True
+        return False
+    if isinstance(e, ast.Compare) and len(e.ops) == 1:
+        a, b, op = _eval(e.left, env), _eval(e.comparators[0], env), e.ops[0]
+        if isinstance(op, ast.Eq):
+            return a == b
+        if isinstance(op, ast.NotEq):
+            return a != b
+        if isinstance(op, ast.In):
+            return a in b
+        if isinstance(op, ast.NotIn):
+            return a not in b
+        if isinstance(op, ast.Is):
+            return a is b
+        if isinstance(op, ast.IsNot):
+            return a is not b
+    if isinstance(e, ast.IfExp):
+        return _eval(e.body, env) if _eval(e.test, env) else _eval(e.orelse, env)
+    raise _Unknown(ast.unparse(e)[:40])
+
+
+def _run_scenario(fv, env: dict):
+    """Follow the CFG of a loop-free function under a scenario: ('return', value) | ('raise', class) | ('unknown', why)."""
+    node = fv.cfg.entry
+    env = dict(env)
+    steps = 0
+    while steps < 500:
+        steps += 1
+        n = fv.cfg.nodes[node]
+        nxt = None
+        if n.kind == "test":
+            try:
+                v = bool(_eval(n.ast, env))
+            except _Unknown as u:
+                return ("unknown", f"cannot evaluate `{ast.unparse(n.ast)[:50]}` ({u})")
+            nxt = [s for s, lab in n.succ if lab == ("T" if v else "F")]
+        elif n.kind == "stmt" and isinstance(n.ast, ast.Return):
+            if n.ast.value is None:
+                return ("return", None)
+            try:
+                return ("return", _eval(n.ast.value, env))
+            except _Unknown as u:
+                return ("unknown", f"cannot evaluate the returned `{ast.unparse(n.ast.value)[:40]}`")
+        elif n.kind == "stmt" and isinstance(n.ast, ast.Raise):
+            return ("raise", raise_class(fv, n.ast)[0])
+        elif n.kind == "assert_fail":
+            return ("raise", "AssertionError")
+        elif n.kind == "exit":
+            return ("return", None)
+        elif n.kind == "for":
+            return ("unknown", "loop in the decision function")
+        else:
+            if n.kind == "stmt" and isinstance(n.ast, ast.Assign) and len(n.ast.targets) == 1 and isinstance(n.ast.targets[0], ast.Name):
+                try:
+                    env[n.ast.targets[0].id] = _eval(n.ast.value, env)
+                except _Unknown:
+                    env.pop(n.ast.targets[0].id, None)  # e.g. a log message: irrelevant unless it is used later
+            nxt = [s for s, lab in n.succ if lab != "exc"]
+        if not nxt:
+            return ("unknown", "dead end")
+        node = nxt[0]
+    return ("unknown", "too many steps")
+
+
 def optimize(ctx) -> None:
+    """Decision table of optimize_partition_by by evaluating its (loop-free) CFG over the finite scenario domain
+    mode in {auto, source, destination, <other>} x source trough? x destination trough?  (16 scenarios)."""
     rule = "C18.mode"
     f = ctx.prog.require_func("optimize_partition_by", rule)
     fv = ctx.fv(f)
-    # membership guard
-    ok_guard = False
-    for n, test, pol, r in fv.raising_guards():
-        rt = fv.res.resolve(test, n.id)
-        core, p = rt, pol
-        while isinstance(core, ast.UnaryOp) and isinstance(core.op, ast.Not):
-            core, p = core.operand, not p
-        if isinstance(core, ast.Compare) and len(core.ops) == 1 and is_name(core.left, _pb()) and isinstance(core.comparators[0], (ast.Set, ast.Tuple, ast.List)):
-            vals = {e.value for e in core.comparators[0].elts if isinstance(e, ast.Constant)}
-            neg = isinstance(core.ops[0], ast.NotIn)
-            if vals == {"auto", "source", "destination"} and (neg == p) and raise_class(fv, r)[0] == "ValueError" and fv.cfg.dominates(n.id, fv.cfg.exit) and not fv.controlling(n.id):
-                ok_guard = True
-    ctx.rep.check(ok_guard, rule, f"{f.qualname}/membership", "partition_by outside {auto, source, destination} raises ValueError first",
-                  "an invalid partition_by name is not rejected with ValueError before anything else", where=f.where())
-    # assignments to partition_by
-    assigns = [n for n in fv.cfg.nodes if n.kind == "stmt" and isinstance(n.ast, ast.Assign) and any(is_name(t, _pb()) for t in n.ast.targets)]
-    table: Dict[tuple, str] = {}
-    atoms = ["source.is_trough", "destination.is_trough"]
-
-    def atom_of(e):
-        txt = ast.unparse(e).replace(" ", "")
-        return txt if txt in atoms else None
-
-    bad_explicit = []
-    expanded = []
-    for n in assigns:
-        v = n.ast.value
-        if isinstance(v, ast.IfExp) and isinstance(v.body, ast.Constant) and isinstance(v.orelse, ast.Constant):
-            expanded.append((n, v.body.value, [(v.test, True)]))
-            expanded.append((n, v.orelse.value, [(v.test, False)]))
-        else:
-            expanded.append((n, v.value if isinstance(v, ast.Constant) else None, []))
-    for n, val, extra in expanded:
-        auto = None
-        conds = list(extra)
-        for d, pol in fv.controlling(n.id, skip_raising=True):
-            t = fv.cfg.nodes[d].ast
-            if isinstance(t, ast.Compare) and is_name(t.left, _pb()) and isinstance(t.comparators[0], ast.Constant) and t.comparators[0].value == "auto" and isinstance(t.ops[0], ast.Eq):
-                auto = pol
-            else:
-                conds.append((t, pol))
-        if auto is not True:
-            bad_explicit.append(n)
-            continue
-        if val is None or len(conds) != 1:
-            ctx.rep.inconclusive(rule, f"{f.qualname}/auto", f"unrecognised assignment `{stmt_key(n.ast)}` in the auto branch", where=f.where(n.ast))
-            return
-        tt = truth_table(conds[0][0], atoms, atom_of)
-        if tt is None:
-            ctx.rep.inconclusive(rule, f"{f.qualname}/auto", f"auto condition `{stmt_key(conds[0][0])}` is not a boolean function of source.is_trough/destination.is_trough", where=f.where(n.ast))
-            return
-        for combo, v in tt.items():
-            if v == conds[0][1]:
-                table[combo] = val
+    w = f.where()
+    table = {}
+    explicit_bad = []
+    bogus_bad = []
+    for mode in ("auto", "source", "destination", "some other name", ""):
+        for st in (False, True):
+            for dt in (False, True):
+                env = {"partition_by": mode, "source.is_trough": st, "destination.is_trough": dt, "label": None}
+                kind, val = _run_scenario(fv, env)
+                if kind == "unknown":
+                    ctx.rep.inconclusive(rule, f"{f.qualname}/decision", f"decision function is outside the evaluable fragment: {val}", where=w)
+                    return
+                if mode == "auto":
+                    table[(st, dt)] = val if kind == "return" else f"raise {val}"
+                elif mode in ("source", "destination"):
+                    if not (kind == "return" and val == mode):
+                        explicit_bad.append((mode, st, dt, kind, val))
+                else:
+                    if not (kind == "raise" and val == "ValueError"):
+                        bogus_bad.append((mode, st, dt, kind, val))
     want = {(True, False): "destination", (False, False): "source", (False, True): "source", (True, True): "source"}
-    ctx.rep.check(table == want, rule, f"{f.qualname}/auto-table", "auto = destination exactly when the source is a trough and the destination is not",
-                  f"decision table of the automatic choice over (source trough, destination trough) is {dict(sorted(table.items()))}; the property requires {dict(sorted(want.items()))}", where=f.where())
-    ctx.rep.check(not bad_explicit, rule, f"{f.qualname}/explicit-respected", "an explicit choice is never reassigned",
-                  f"`{stmt_key(bad_explicit[0].ast) if bad_explicit else ''}` overrides an explicit partition_by choice", where=f.where())
-    rets = [n for n in fv.cfg.nodes if n.kind == "stmt" and isinstance(n.ast, ast.Return)]
-    ctx.rep.check(all(is_name(fv.alias_root(n.ast.value, n.id), _pb()) for n in rets) and bool(rets), rule, f"{f.qualname}/return", "returns the decided mode", "does not return the decided partition_by", where=f.where())
+    ctx.rep.check(table == want, rule, f"{f.qualname}/auto-table", "auto = destination exactly when the source is a trough and the destination is not (4 scenarios)",
+                  f"decision table of the automatic choice over (source trough, destination trough) is {dict(sorted(table.items()))}; the property requires {dict(sorted(want.items()))}", where=w)
+    ctx.rep.check(not explicit_bad, rule, f"{f.qualname}/explicit-respected", "an explicit choice is returned unchanged in all 8 scenarios",
+                  f"explicit choice not respected: partition_by={explicit_bad[0][0]!r}, source trough={explicit_bad[0][1]}, destination trough={explicit_bad[0][2]} gives {explicit_bad[0][3]} {explicit_bad[0][4]!r}" if explicit_bad else "", where=w)
+    ctx.rep.check(not bogus_bad, rule, f"{f.qualname}/membership", "any other mode name raises ValueError in all scenarios",
+                  f"partition_by={bogus_bad[0][0]!r} is not rejected with ValueError (result: {bogus_bad[0][3]} {bogus_bad[0][4]!r})" if bogus_bad else "", where=w)
